@@ -131,7 +131,7 @@ pub fn c07(data: &[u8]) -> c07::Case {
     while s.left() > 0 && ops.len() < 300 {
         ops.push(top(&mut s));
     }
-    c07::Case { cfg, ops }
+    c07::Case { cfg, ops, svc: None }
 }
 
 pub fn c08(data: &[u8]) -> c08::Case {
